@@ -100,7 +100,7 @@ Proof. vm_compute. reflexivity. Qed.
 Example O09_body_disk_NewFileDisk :
   has_body func_bodies "disk.NewFileDisk"
     "func(path string, numBlocks uint64) (FileDisk, error)"
-    "{ fd, err := unix.Open(path, unix.O_RDWR|unix.O_CREAT, 0666) if err != nil { return FileDisk{}, err } var stat unix.Stat_t err = unix.Fstat(fd, &stat) if err != nil { return FileDisk{}, err } if (stat.Mode&unix.S_IFREG) != 0 && uint64(stat.Size) != numBlocks { err = unix.Ftruncate(fd, int64(numBlocks*BlockSize)) if err != nil { return FileDisk{}, err } } return FileDisk{fd, numBlocks}, nil }" = true.
+    "{ fd, err := unix.Open(path, unix.O_RDWR|unix.O_CREAT, 0666) if err != nil { return FileDisk{}, err } var stat unix.Stat_t err = unix.Fstat(fd, &stat) if err != nil { return FileDisk{}, err } if (stat.Mode&unix.S_IFREG) != 0 && uint64(stat.Size) != numBlocks*BlockSize { err = unix.Ftruncate(fd, int64(numBlocks*BlockSize)) if err != nil { return FileDisk{}, err } } return FileDisk{fd, numBlocks}, nil }" = true.
 Proof. vm_compute. reflexivity. Qed.
 
 Example O09_body_disk_NewMemDisk :
